@@ -143,9 +143,23 @@ func (l *Ledger) MergeViewRun(v *Ledger) (replaced, added int) {
 			short[f.Rule] = true
 		}
 	}
+	viewFuncs := map[string]bool{}
+	for _, o := range v.Obs {
+		viewFuncs[o.Func] = true
+	}
 	var out []*Obligation
 	for _, k := range order {
 		g := mine[k]
+		// a function literal that the view has expanded into its enclosing function no longer exists
+		// there: its obligations are those of the enclosing function's group
+		if !clean(g) && !viewFuncs[k.fn] {
+			if i := strings.LastIndex(k.fn, "$"); i > 0 {
+				if t := theirs[key{k.rule, k.fn[:i]}]; clean(t) {
+					replaced++
+					continue // the parent's (clean) group is merged under its own key
+				}
+			}
+		}
 		if !clean(g) {
 			if t := theirs[k]; clean(t) && len(t) >= len(g) {
 				for _, o := range t {
